@@ -158,7 +158,7 @@ def check(tier):
     t0 = time.time()
     binp = lib.build("c22")
     v = lib.Verdict(PID)
-    n = 400 if tier == "quick" else 6000
+    n = 300 if tier == "quick" else 6000
     import concurrent.futures as cf
     with lib.Scratch() as sc, cf.ThreadPoolExecutor(max_workers=1) as ex:
         fm = ex.submit(lib.tlc, "MC_Recreate", "MC_Recreate.cfg", workers=1, timeout=300, heap="1g")
